@@ -57,6 +57,20 @@ Proof. vm_compute. split; reflexivity. Qed.
 Lemma f16_original : fed_exec ww wg pick1 false false q16 = None.
 Proof. vm_compute. reflexivity. Qed.
 
+(** Repaired by patches/C06-fix-4: { self @skip(if: true) { p }  self { q } } -- the flattener grouped by alias before it looked at the
+    directives: the kept `self` was merged into the skipped one and planObject then dropped both. *)
+Definition q_excl : list node :=
+  [NField "self" "self" (JObj []) "" [("skip", true)] true [fld "p" []]; fld "self" [fld "q" []]].
+
+Definition ans_excl : json := JObj [("self", JObj [("q", JNum 21%Z)])].
+
+Lemma excl_repaired : option_map norm (fed_exec ww wg pick1 false true q_excl) = Some ans_excl /\
+                     option_map norm (eval_ref ww wg false 9 "Query" 0%Z q_excl) = Some ans_excl.
+Proof. vm_compute. split; reflexivity. Qed.
+
+Lemma excl_original : option_map norm (fed_exec_gen false ww wg pick1 false true q_excl) = Some (JObj []).
+Proof. vm_compute. reflexivity. Qed.
+
 (** A federation with a union, keyed objects and a finite table of resolver results, for the non-vacuity of
     the main theorem: Query.u : [U] on s1; A.x on s1, A.y and B.z on s2 -- a hop below each union member. *)
 From Thunder Require Import Federation.Premises.
@@ -75,11 +89,12 @@ Definition calls2 : list (string * Z * string * string * aval) :=
    ("A", 3%Z, "x", "", ANull); ("A", 3%Z, "y", "", AList [AScalar (JNum 1%Z); ANull]);
    ("B", 2%Z, "z", "", AScalar (JBool true))].
 
-(** { u { ... on A { x y } ... on B { z } ... on A { again: x } } } *)
+(** { u { ... on A { y @skip(if: true) @include(if: true)  x y } ... on B @include(if: true) { z } ... on A { again: x  z: x @include(if: false) } } } *)
 Definition q2 : list node :=
   [NField "u" "u" (JObj []) "" [] true
-     [NFrag "A" [] [fld "x" []; fld "y" []]; NFrag "B" [("include", true)] [fld "z" []];
-      NFrag "A" [] [NField "again" "x" (JObj []) "" [] false []]]].
+     [NFrag "A" [] [NField "y" "y" (JObj []) "" [("skip", true); ("include", true)] false []; fld "x" []; fld "y" []];
+      NFrag "B" [("include", true)] [fld "z" []];
+      NFrag "A" [] [NField "again" "x" (JObj []) "" [] false []; NField "z" "x" (JObj []) "" [("include", false)] false []]]].
 
 Definition ans2 : json :=
   JObj [("u", JArr [JObj [("__key", JNum 1%Z); ("__typename", JStr "A"); ("again", JNum 11%Z); ("x", JNum 11%Z); ("y", JStr "one")];
